@@ -89,14 +89,25 @@ def firstCode : List Item → Option Item
   | [] => none
   | x :: rest => if x.isComment then firstCode rest else some x
 
-/-- pun collapse: `x = x` and `x` are the same spelling (comments may sit between `=` and the
-second `x`; they stay where they are, in front of the surviving token) -/
+/-- pun collapse: `x = x` and `x` are the same spelling (comments may sit on either side of the
+`=`; they stay where they are, in front of the surviving token) -/
 def collapsePuns : List Item → List Item
-  | .content a :: .punct "=" :: rest =>
-    if firstCode rest == some (.content a) then collapsePuns rest
-    else .content a :: .punct "=" :: collapsePuns rest
-  | x :: rest => x :: collapsePuns rest
   | [] => []
+  | .content a :: rest =>
+    match h : spanComments rest with
+    | (cs, .punct "=" :: tail) =>
+      if firstCode tail == some (.content a) then cs ++ collapsePuns tail
+      else .content a :: cs ++ .punct "=" :: collapsePuns tail
+    | _ => .content a :: collapsePuns rest
+  | x :: rest => x :: collapsePuns rest
+termination_by l => l.length
+decreasing_by
+  all_goals simp_wf
+  all_goals
+    have := spanComments_length rest
+    rw [h] at this
+    simp only [List.length_cons] at this
+    omega
 
 /-- what must be preserved, in order: content tokens and comments. Keywords and punctuation may
 be rewritten by the documented transformations (merged binder telescopes drop `fn`, `forall`,
